@@ -207,7 +207,8 @@ class ProgSet:
             lines = ["#![allow(unused, clippy::all, long_running_const_eval)]", "mod support;", "use support::*;"] + self.prelude.split("\n") + [""]
             for (pid, plines, entry) in sh:
                 start = len(lines) + 1
-                lines.extend(plines)
+                for pl in plines:
+                    lines.extend(pl.split("\n"))  # literals may contain newlines: keep line numbers exact
                 linemap[(name, pid)] = (start, len(lines))
             lines.append(f"static PROGS: &[{self.prog_type}] = &[")
             for (pid, plines, entry) in sh:
@@ -231,6 +232,8 @@ class ProgSet:
             for e in errs:
                 hit = False
                 for (f, line) in e["spans"]:
+                    if not f.endswith(f"{tgt}/src/main.rs"):
+                        continue  # a span inside konst's own sources: only the expansion site in the generated file counts
                     for (name, pid), (a, b) in linemap.items():
                         if name == tgt and a <= line <= b:
                             rejected.setdefault(pid, e["msg"] + " | " + e["rendered"][:400])
